@@ -417,7 +417,7 @@ def mpf_erfc(x, prec, rnd=round_fast):
         #print k, to_str(from_man_exp(term, -wp, 50), 10)
         k += 1
     s = (s << wp) // sqrt_fixed(pi_fixed(wp), wp)
-    s = from_man_exp(s, -wp, wp)
+    s = from_man_exp(s, -wp, wp, round_fast)
     z = mpf_exp(mpf_neg(mpf_mul(x,x,wp),wp),wp)
     y = mpf_div(mpf_mul(z, s, wp), x, prec, rnd)
     return y
@@ -701,7 +701,7 @@ def mpf_expint(n, x, prec, rnd=round_fast, gamma=False):
                 else:
                     s += facs[k] * t
                 t = (t*r) >> wp
-            T2 = from_man_exp(s, -wp, wp)
+            T2 = from_man_exp(s, -wp, wp, round_fast)
             T2 = mpf_mul(T2, mpf_exp(negx, wp))
             if gamma:
                 T2 = mpf_mul(T2, mpf_pow_int(x, n_orig, wp), wp)
